@@ -41,6 +41,17 @@ func indentAndWrite(buf *bytes.Buffer, dst []byte, src []byte, prefix, indentStr
 	if err != nil {
 		return nil, err
 	}
+	// trailing space characters at the end of src are preserved and copied to dst
+	end := len(src) - 1 // src carries the nul terminator
+	start := end
+	for start > 0 {
+		c := src[start-1]
+		if c != ' ' && c != '\t' && c != '\n' && c != '\r' {
+			break
+		}
+		start--
+	}
+	dst = append(dst, src[start:end]...)
 	if _, err := buf.Write(dst); err != nil {
 		return nil, err
 	}
